@@ -168,7 +168,24 @@ pub fn eval_value(mv: &MV) -> Result<String, (String, String)> {
         let e = lexpr::to_string_custom(&v, lexpr::print::Options::default())
             .map(String::into_bytes)
             .map_err(|e| e.to_string());
-        [("to_string", a), ("to_vec", b), ("to_writer", c), ("Display", d), ("to_string_custom", e)]
+        // the io writer entry point into writers that take a few bytes per call
+        // (pipes and sockets do): the text that arrives is the text that is parsed
+        struct Few(Vec<u8>, usize);
+        impl std::io::Write for Few {
+            fn write(&mut self, data: &[u8]) -> std::io::Result<usize> {
+                let n = data.len().min(self.1);
+                self.0.extend_from_slice(&data[..n]);
+                Ok(n)
+            }
+            fn flush(&mut self) -> std::io::Result<()> {
+                Ok(())
+            }
+        }
+        let mut w1 = Few(Vec::new(), 1);
+        let f = lexpr::to_writer(&mut w1, &v).map(|_| w1.0).map_err(|e| e.to_string());
+        let mut w3 = Few(Vec::new(), 3);
+        let g = lexpr::to_writer(&mut w3, &v).map(|_| w3.0).map_err(|e| e.to_string());
+        [("to_string", a), ("to_vec", b), ("to_writer", c), ("Display", d), ("to_string_custom", e), ("to_writer(1 byte per call)", f), ("to_writer(3 bytes per call)", g)]
     });
     let printed = match printed {
         Ok(p) => p,
